@@ -18,6 +18,14 @@ func TestVerif(t *testing.T) {
 			if c.Thorough() {
 				u = append(u, "")
 			}
+			if c.Param("universe", "") == "wide" {
+				// elements with a long common prefix (one of them a prefix of the others), and a pair that
+				// differs only by a trailing NUL
+				u = []string{"LGPL-2.1-only", "LGPL-2.1+", "LGPL-2.1", "a\x00"}
+				if c.Thorough() {
+					u = append(u, "a")
+				}
+			}
 			api := &vmodel.SetAPI[*StringSet, string]{
 				Name: "StringSet", Universe: u, Fresh: "w", Nil: nil,
 				New:        func(e ...string) *StringSet { return NewStringSet(e...) },
@@ -40,7 +48,8 @@ func TestVerif(t *testing.T) {
 				Quote:      func(e string) string { return fmt.Sprintf("%q", e) },
 			}
 			if long {
-				vmodel.CheckSetsLong(c, api, func(i int) string { return fmt.Sprintf("e%05d", i) })
+				// all elements share their first 14 bytes
+				vmodel.CheckSetsLong(c, api, func(i int) string { return fmt.Sprintf("common-prefix-%05d", i) })
 				return
 			}
 			vmodel.CheckSets(c, api)
